@@ -326,3 +326,27 @@ PROPS = {
                         "unknown format or type names are accepted by design (auto / none)"],
     },
 }
+
+
+# Generator extensions of round 2 (prompted by the seeded-change campaign, DESIGN.md §14), appended to the rules.
+_ROUND2 = {
+    "C01": "lines of 4000-70000 bytes (thorough: 1 MiB) around the 4 KiB and 64 KiB buffer sizes, incl. rows rejected on a late column after kilobytes of rendered output",
+    "C02": "batches of 2-8 lines through ONE importer/exporter pair (each line must come out as it does alone)",
+    "C03": "the input side without a template or with the columns declared in reverse order; exactly the declared key set in every permutation; JSON text handed straight to Exporter.Export; one case in four run after a line that was rejected (at import, at export) on the same importer and exporter",
+    "C04": "JSON text handed straight to Exporter.Export; instants within a day of the year 0000 and 9999 boundaries rendered by date / datetime / string / timestamp columns under the five process zones",
+    "C05": "integers beyond 2^53 and the 64-bit bounds; when the model cannot compute a line the deviation is attributed through a hint computed on the implementation (cast.To of the output raw type on the imported raw value)",
+    "C07": "three template pairs: import-side rejection; export-side rejection of a line that was read without error; undeclared keys on both sides",
+    "C08": "an over-long (10 MiB) last line without final newline under the tolerant processor in the quick tier; a failure counts as reported only through a call carrying the scanner's own error class or a return value",
+    "C09": "boundary, text, float, bool and random sources also go through the dispatcher cast.To(sample of the target type, v)",
+    "C10": "row level: 9 formats x (18 raw types + none) x 41 values through ImportAtKey into a declared column of a fresh row; after a successful import the raw value must be nil or of the declared type",
+    "C11": "column level: base64 payloads of every length 0-17 into a binary(T) column for every fixed-width T and bool (accepted iff well-sized; the accepted bytes are re-emitted)",
+    "C13": "strings of every character class the JSON writer treats differently (C0 controls, DEL, C1, U+2028/2029, BOM, non-characters, astral); all the values of a pairing once more through ONE exporter and ONE importer, every row held until the last line was read",
+    "C14": "the same instant rendered consecutively with different offsets; column level: date-time strings with explicit offsets (both passes of the hour repeated at the end of DST, the skipped hour, offsets equal to and different from the process zone's, fractions, year bounds) through datetime / timestamp / string(time) columns, judged by c14LineViolation",
+    "C15": "the next line of one long-lived importer (lines rejected at the first token, after members were stored, on a later column, with trailing content); a row it hands out must be what its line gives on its own",
+    "C16": "objects whose closing brace falls on and around 512, 1024, 4096 ... 65536 bytes, alone and followed by trailing content; every line is followed by `{}` on the same importer, whose row must be what `{}` gives alone",
+    "C17": "MapTo: 12 stored values x 21 field types as one-field struct types built with reflect",
+    "C18": "ImportAtPath: on the implementation's own before/after rows nothing but the addressed cell may change",
+    "C20": "the shared template is cold when the goroutines start (the sequential reference runs afterwards on a second, identically built template); date-times are RFC 3339 strings that differ per goroutine and iteration; importers that failed earlier in the process precede the concurrent phase",
+}
+for _pid, _txt in _ROUND2.items():
+    PROPS[_pid]["rule"] += " Also: " + _txt + "."
